@@ -70,7 +70,10 @@ def cases(draw):
     name, nb = draw(st.sampled_from([("value.dat", "value.txt"), ("value.dat", "value"), ("value", "value.dat"),
                                      ("data.tar.gz", "data.tar.bz2"), ("a.b", "a.c"), ("value.dat", "other.dat"),
                                      ("value.dat", "value.dat.bak")]))
-    return {"name": name, "neighbour": nb, "kind": kind, "pathlib": draw(st.booleans()), "encoding": enc, "has_prev": has_prev,
+    bad_enc = None
+    if kind in ("json", "text", "staged_write") and draw(st.integers(0, 9)) == 0:
+        bad_enc = draw(st.sampled_from(["utf-88", "no-such-codec"]))
+    return {"bad_encoding": bad_enc, "name": name, "neighbour": nb, "kind": kind, "pathlib": draw(st.booleans()), "encoding": enc, "has_prev": has_prev,
             "prev": prev, "new": new, "bad": bad, "chunks": chunks}
 
 
@@ -82,6 +85,8 @@ def make_writer(case, directory, name=None):
     path = os.path.join(directory, name or case.get("name", "value.dat"))
     p = pathlib.Path(path) if case["pathlib"] else path
     kind, enc = case["kind"], case["encoding"]
+    if case.get("use_bad_encoding"):
+        enc = case["bad_encoding"]
     if kind == "json":
         s = stores.JsonFileStore(p, encoding=enc)
     elif kind == "pickle":
@@ -187,6 +192,9 @@ def check_case(ctx, case, record=True, only=None):
             ctx.count("file_ops", k=nops)
         # the failing-serialisation case itself (no injected fault)
         plans = [(k, fk) for k in range(nops) for fk in ("oserror", "perm", "kbi", "exit")]
+        plans += [(k, "short") for k, op in enumerate(oplog) if op[1] == "write"]
+        if case.get("bad_encoding"):
+            plans.append((None, "bad_encoding"))
         if case["bad"]:
             plans.append((None, "serialisation"))
         if only is not None:
@@ -250,6 +258,29 @@ def run_neighbour(ctx, case, d, new, prev_bytes, new_bytes, k, nops, oplog, reco
 
 
 def run_one(ctx, case, d, new, prev_bytes, new_bytes, k, fk, nops, oplog, record):
+    if fk == "bad_encoding":
+        # the store was configured with an encoding that does not exist: open() creates the file and then fails
+        # while building the text layer; the write fails by exception and must leave nothing behind
+        path, write, read = make_writer(dict(case, use_bad_encoding=True), d)
+        if case["has_prev"]:
+            with open(path, "wb") as f:
+                f.write(prev_bytes)
+        key_case = {"case": case, "k": None, "fault": fk}
+        tag = f"[{case['kind']} with encoding {case['bad_encoding']!r}] "
+        if record:
+            ctx.case(key_case, case["has_prev"], [f"kind:{case['kind']}", "fault:bad_encoding"])
+        try:
+            write(case["new"])
+        except LookupError:
+            pass
+        else:
+            ctx.violation(key_case, tag + "the write did not raise LookupError")
+        if file_bytes(path) != prev_bytes:
+            ctx.violation(key_case, tag + f"the target changed: {file_bytes(path)!r:.80}")
+        left = staging_entries(d, keep=(case.get("name", "value.dat"),))
+        if left:
+            ctx.violation(key_case, tag + f"write failed with LookupError but left entries behind: {left}")
+        return
     path, write, read = make_writer(case, d)
     if case["has_prev"]:
         with open(path, "wb") as f:
@@ -282,6 +313,9 @@ def run_one(ctx, case, d, new, prev_bytes, new_bytes, k, fk, nops, oplog, record
                 write(new)
             except BaseException as e:
                 raised = e
+        if fk == "short" and not inj.short_applied:
+            if record:
+                ctx.count("short_write_not_applicable(buffered file)")
         if k is not None and not inj.fired and raised is None and not case["bad"]:
             ctx.violation(key_case, tag + "harness: the planned file operation was never reached")
         if raised is None and case["bad"]:
